@@ -105,6 +105,11 @@ type VC struct {
 	label    string
 	ifacePtr map[string]*PtrDesc
 	readLog  map[string]bool
+	pureReads []string
+	effCall  *ssa.CallCommon
+	effFrame *Frame
+	durParts map[string][2]string // time.Duration terms known as (seconds, nanosecond difference)
+	inlineMode bool // no named intermediate definitions, no assumptions (pure term construction)
 	errAxDone bool
 	rtypeOf  map[string]Val
 	statics  []string // initial contents of static table objects (heaps used by this VC)
@@ -128,7 +133,7 @@ func newVC(w *World, fn *ssa.Function, c *Contract) *VC {
 	return &VC{w: w, fn: fn, contract: c, declared: map[string]bool{}, pureDone: map[*SpecFn]bool{},
 		heapSort: map[string]string{}, strDone: map[int]bool{}, strSrc: map[string]*strSource{}, strCat: map[string][2]Val{},
 		tableDone: map[string]bool{}, ordinals: map[string]int{}, trusted: map[string]bool{}, snapArrays: map[string][]string{},
-		nonNil: map[string]bool{}, ghostSorts: map[string]string{}, revealed: map[string]bool{}, ifacePtr: map[string]*PtrDesc{}, rtypeOf: map[string]Val{}, freshKeys: map[string]bool{}, dirty: map[string]bool{}}
+		nonNil: map[string]bool{}, ghostSorts: map[string]string{}, revealed: map[string]bool{}, ifacePtr: map[string]*PtrDesc{}, rtypeOf: map[string]Val{}, freshKeys: map[string]bool{}, dirty: map[string]bool{}, durParts: map[string][2]string{}}
 }
 
 type outsideSubset struct{ msg string }
@@ -172,6 +177,9 @@ func (vc *VC) freshConst(prefix, sort string) string {
 }
 
 func (vc *VC) assume(cond, fact string) {
+	if vc.inlineMode {
+		return
+	}
 	f := imp(cond, fact)
 	if f == "true" {
 		return
@@ -181,7 +189,7 @@ func (vc *VC) assume(cond, fact string) {
 
 // define introduces a named constant equal to term (keeps VC size linear).
 func (vc *VC) define(prefix, sort, term string) string {
-	if len(term) < 24 {
+	if len(term) < 24 || vc.inlineMode {
 		return term
 	}
 	n := vc.freshConst(prefix, sort)
@@ -441,7 +449,7 @@ func (vc *VC) setVal(fr *Frame, v ssa.Value, val Val) {
 	out := Val{T: v.Type()}
 	base := vc.valName(fr, v)
 	for k, t := range val.L {
-		if len(t) < 40 {
+		if len(t) < 40 || vc.inlineMode {
 			out.L = append(out.L, t)
 			continue
 		}
